@@ -179,12 +179,13 @@ def finish(inst, limiter, d, names, k, status):
     """state before close(), then close(), leak count, files"""
     try:
         open_keys = [inst.pid(p) for p, v in limiter.openHandles.items() if 'handle' in v]
+        ghost_keys = [inst.pid(p) for p, v in limiter.openHandles.items() if 'handle' not in v]
         known = [p for p in limiter.seen if os.path.basename(str(p)) in inst.pid_of_path]
         seen_foreign = sorted(str(p) for p in limiter.seen if os.path.basename(str(p)) not in inst.pid_of_path)[:3]
         seen = sorted(inst.pid(p) for p in known)
         ctr = limiter.pruneIntervalCounter
     except Exception as e:
-        open_keys, seen, ctr, seen_foreign = 'error: %r' % (e,), [], -1, []
+        open_keys, seen, ctr, seen_foreign, ghost_keys = 'error: %r' % (e,), [], -1, [], None
     close_error = None
     try:
         limiter.close()
@@ -192,7 +193,7 @@ def finish(inst, limiter, d, names, k, status):
         close_error = '%s: %s' % (type(e).__name__, e)
     leaked = inst.nopen   # proxies not closed through close(): descriptors the writer lost track of
     files, errs = read_back(d, names)
-    return {'k': k, 'status': status, 'trace': inst.trace, 'open': open_keys, 'seen': seen, 'ctr': ctr,
+    return {'k': k, 'status': status, 'trace': inst.trace, 'open': open_keys, 'ghosts': ghost_keys, 'seen': seen, 'ctr': ctr,
             'close_error': close_error, 'leaked': leaked, 'seen_foreign': seen_foreign, 'files': files, 'read_errors': errs,
             'unknown_paths': inst.unknown_paths[:5]}
 
@@ -216,20 +217,31 @@ def run_case(n, case, probe=False):
         with Patched(inst) as P:
             avail = probe_available() if probe else None
             h = P.H.HandleLimiter(maxHandles=case['maxHandles'], pruneEvery=case['pruneEvery'])
+            # case['cont']: the caller catches whatever a write() raises and carries on with the same writer (a history
+            # that continues after a raise); otherwise the run ends at the first call that raises.
+            cont = bool(case.get('cont'))
             k, status = 0, 0
+            statuses, marks = [], []
             for pid, s, fa in case['ops']:
                 fn, is_plain = names[pid]
+                st = 0
                 try:
                     if fa:
                         h.write(os.path.join(d, fn), s, method=0 if is_plain else 1, forceAppend=True)
                     else:
                         h.write(os.path.join(d, fn), s, method=0 if is_plain else 1)
                 except (Exception, Livelock) as e:
-                    status = exc_code(e)
+                    st = exc_code(e)
                     del e
+                statuses.append(st)
+                marks.append(len(inst.trace))   # OS calls made up to the end of this write()
+                if st == 0:
+                    k += 1
+                elif not cont or st == 3:
+                    status = st
                     break
-                k += 1
             res = finish(inst, h, d, names, k, status)
+            res['statuses'], res['marks'] = statuses, marks
             res['avail'] = avail
     finally:
         shutil.rmtree(d, ignore_errors=True)
@@ -261,9 +273,18 @@ def run_fastq(n, case):
             cfg = {'maxHandles': limiter.maxHandles, 'pruneEvery': limiter.pruneEvery}
             strings, done, status = [], [0], 0
             orig_write = limiter.write
+            calls = []    # every HandleLimiter.write call FastqHandle made: [pid, string, status, OS calls so far]
+            cont = bool(case.get('cont'))
 
             def counted_write(*a, **kw):
-                orig_write(*a, **kw)
+                path = a[0] if a else kw.get('path')
+                string = a[1] if len(a) > 1 else kw.get('string')
+                try:
+                    orig_write(*a, **kw)
+                except (Exception, Livelock) as e:
+                    calls.append([inst.pid(path), string, exc_code(e), len(inst.trace)])
+                    raise
+                calls.append([inst.pid(path), string, 0, len(inst.trace)])
                 done[0] += 1
             limiter.write = counted_write   # counts completed HandleLimiter.write calls
             for pair in case['pairs']:
@@ -274,10 +295,15 @@ def run_fastq(n, case):
                 except (Exception, Livelock) as e:
                     status = exc_code(e)
                     del e
-                    break
+                    # case['cont']: the caller (a demultiplexer that skips a cell it cannot write) carries on
+                    if not cont or status == 3:
+                        break
+                    status = 0
             res = finish(inst, limiter, d, names, done[0], status)
             res['cfg'] = cfg
             res['strings'] = strings
+            res['calls'] = [c[:2] for c in calls]
+            res['statuses'], res['marks'] = [c[2] for c in calls], [c[3] for c in calls]
             # FastqHandle.close() is the public way to close: the limiter is closed already, must be harmless
             try:
                 fh.close()
